@@ -1,4 +1,309 @@
-import EE.Model.Program
+import EE.Model.Conc
+import EE.Lemmas.Tie
+/-! # C13 — concurrent use is safe, including first use and concurrent registration (partial)
+
+Theorems are about the protocol model `EE.Conc` (for every number of threads, every program of
+calls, every schedule). What the model cannot exhibit — the OS scheduler, the atomicity of
+`std::sync::Mutex` and the blocking of `once_cell` (trusted library semantics) — is covered by
+forced and repeated schedules against the real crate only. Full linearisability of *multi-read*
+evaluations w.r.t. registrations is stated and proved **false** (known finding KF-C13-multiread);
+what holds is atomicity per registry operation. -/
 namespace EE.Props.C13
-theorem placeholder : True := trivial
+open EE.Conc
+
+/-- The protocol invariant. -/
+structure Inv (g : G) : Prop where
+  /-- before initialisation: nothing registered, nobody past `init()` -/
+  uninit : g.once = .uninit → g.regs = [] ∧ ∀ t ∈ g.threads, t.pc = .start
+  /-- during initialisation: exactly the initialiser is past `start`; stages `< k` are registered, nothing else -/
+  running : ∀ tid, g.once = .running tid →
+    (∃ t k ops, g.threads[tid]? = some t ∧ t.pc = .initializing k ops ∧ k < nStages ∧
+      ∀ i, (lookup i g.regs).isSome = true ↔ i < k) ∧
+    ∀ j t, g.threads[j]? = some t → j ≠ tid → t.pc = .start
+  /-- after initialisation: every built-in is registered; nobody is initialising -/
+  done : g.once = .done → (∀ i, i < nStages → (lookup i g.regs).isSome = true) ∧
+    ∀ t ∈ g.threads, ∀ k ops, t.pc ≠ .initializing k ops
+
+theorem lookup_cons (k k' : Nat) (v : Nat) (r : List (Nat × Nat)) :
+    lookup k ((k', v) :: r) = if k' = k then some v else lookup k r := rfl
+
+theorem mem_set_cases {α : Type} (l : List α) (i : Nat) (a x : α) (h : x ∈ l.set i a) :
+    x = a ∨ ∃ j, j ≠ i ∧ l[j]? = some x := by
+  rw [List.mem_iff_getElem?] at h
+  obtain ⟨j, hj⟩ := h
+  rw [List.getElem?_set] at hj
+  split at hj
+  · split at hj
+    · left; cases hj; rfl
+    · cases hj
+  · rename_i hne; right; exact ⟨j, fun e => hne e.symm, hj⟩
+
+theorem inv_init (programs : List (List (List Op))) : Inv (init programs) := by
+  refine ⟨fun _ => ⟨rfl, ?_⟩, fun tid h => by simp [init] at h, fun h => by simp [init] at h⟩
+  intro t ht
+  simp [init] at ht
+  obtain ⟨c, _, rfl⟩ := ht
+  rfl
+
+theorem inv_step (g g' : G) (tid : Nat) (hi : Inv g) (hs : step g tid = some g') : Inv g' := by
+  unfold step at hs
+  cases hget : g.threads[tid]? with
+  | none => simp [hget] at hs
+  | some t =>
+    simp only [hget] at hs
+    have hlt : tid < g.threads.length := by
+      have := List.getElem?_eq_some_iff.mp hget; exact this.1
+    cases hpc : t.pc with
+    | start =>
+      simp only [hpc] at hs
+      cases hcalls : t.calls with
+      | nil => simp [hcalls] at hs
+      | cons c rest =>
+        simp only [hcalls] at hs
+        cases honce : g.once with
+        | uninit =>
+          simp only [honce, Option.some.injEq] at hs
+          subst hs
+          obtain ⟨hregs, hall⟩ := hi.uninit honce
+          refine ⟨fun h => by simp [setThread] at h, fun tid' h => ?_, fun h => by simp [setThread] at h⟩
+          simp only [setThread, Once.running.injEq] at h
+          subst h
+          refine ⟨⟨{ t with pc := .initializing 0 c, calls := rest }, 0, c, by simp [setThread, List.getElem?_set, hlt], rfl, by decide, fun i => ?_⟩, fun j t' hj hne => ?_⟩
+          · simp [setThread, hregs, lookup]
+          · simp only [setThread, List.getElem?_set] at hj
+            split at hj
+            · rename_i e; exact absurd e.symm hne
+            · exact hall t' (List.mem_iff_getElem?.mpr ⟨j, hj⟩)
+        | running o => simp [honce] at hs
+        | done =>
+          simp only [honce, Option.some.injEq] at hs
+          subst hs
+          obtain ⟨hb, hni⟩ := hi.done honce
+          refine ⟨fun h => by simp [setThread, honce] at h, fun tid' h => by simp [setThread, honce] at h, fun _ => ⟨hb, ?_⟩⟩
+          intro t' ht' k ops
+          rcases mem_set_cases _ _ _ _ ht' with rfl | ⟨j, _, hj⟩
+          · simp
+          · exact hni t' (List.mem_iff_getElem?.mpr ⟨j, hj⟩) k ops
+    | initializing k ops =>
+      simp only [hpc] at hs
+      -- the stepping thread is the initialiser
+      have honce : g.once = .running tid := by
+        cases ho : g.once with
+        | uninit => have := (hi.uninit ho).2 t (List.mem_iff_getElem?.mpr ⟨tid, hget⟩); rw [hpc] at this; cases this
+        | done => exact absurd hpc ((hi.done ho).2 t (List.mem_iff_getElem?.mpr ⟨tid, hget⟩) k ops)
+        | running o =>
+          obtain ⟨_, hothers⟩ := hi.running o ho
+          by_cases e : tid = o
+          · rw [e]
+          · have := hothers tid t hget e; rw [hpc] at this; cases this
+      obtain ⟨⟨t0, k0, ops0, hg0, hpc0, hk0, hreg0⟩, hothers⟩ := hi.running tid honce
+      rw [hget] at hg0; cases hg0
+      rw [hpc] at hpc0; cases hpc0
+      by_cases hlast : k + 1 = nStages
+      · simp only [hlast, if_true, Option.some.injEq] at hs
+        subst hs
+        refine ⟨fun h => by simp [setThread] at h, fun tid' h => by simp [setThread] at h, fun _ => ⟨fun i hi4 => ?_, ?_⟩⟩
+        · simp only [setThread, stageEntries, List.cons_append, List.nil_append, lookup_cons]
+          by_cases e : k = i
+          · simp [e]
+          · simp only [e, if_false]
+            have : i < k := by unfold nStages at hlast hi4; omega
+            exact (hreg0 i).mpr this
+        · intro t' ht' k' ops'
+          simp only [setThread] at ht'
+          rcases mem_set_cases _ _ _ _ ht' with rfl | ⟨j, hne, hj⟩
+          · simp
+          · rw [hothers j t' hj hne]; intro h; cases h
+      · simp only [hlast, if_false, Option.some.injEq] at hs
+        subst hs
+        refine ⟨fun h => by simp [setThread, honce] at h, fun tid' h => ?_, fun h => by simp [setThread, honce] at h⟩
+        simp only [setThread, honce, Once.running.injEq] at h
+        subst h
+        refine ⟨⟨{ t with pc := .initializing (k + 1) ops }, k + 1, ops, by simp [setThread, List.getElem?_set, hlt], rfl, by unfold nStages at *; omega, fun i => ?_⟩, fun j t' hj hne => ?_⟩
+        · show (lookup i (stageEntries k ++ g.regs)).isSome = true ↔ i < k + 1
+          simp only [stageEntries, List.cons_append, List.nil_append, lookup_cons]
+          by_cases e : k = i
+          · simp [e]
+          · simp only [e, if_false]; rw [hreg0 i]
+            constructor <;> intro h <;> omega
+        · simp only [setThread, List.getElem?_set] at hj
+          split at hj
+          · rename_i e; exact absurd e.symm hne
+          · exact hothers j t' hj hne
+    | running todo =>
+      simp only [hpc] at hs
+      -- a thread past init(): the cell is done
+      have honce : g.once = .done := by
+        cases ho : g.once with
+        | uninit => have := (hi.uninit ho).2 t (List.mem_iff_getElem?.mpr ⟨tid, hget⟩); rw [hpc] at this; cases this
+        | done => rfl
+        | running o =>
+          obtain ⟨⟨t0, k0, ops0, hg0, hpc0, _⟩, hothers⟩ := hi.running o ho
+          by_cases e : tid = o
+          · subst e; rw [hget] at hg0; cases hg0; rw [hpc] at hpc0; cases hpc0
+          · have := hothers tid t hget e; rw [hpc] at this; cases this
+      obtain ⟨hb, hni⟩ := hi.done honce
+      have keep : ∀ (g2 : G) (t2 : Thread), g2.once = .done → (∀ i, i < nStages → (lookup i g2.regs).isSome = true) →
+          g2.threads = g.threads → (∀ k ops, t2.pc ≠ .initializing k ops) → Inv (setThread g2 tid t2) := by
+        intro g2 t2 h1 h2 h3 h4
+        refine ⟨fun h => by simp [setThread, h1] at h, fun tid' h => by simp [setThread, h1] at h, fun _ => ⟨h2, ?_⟩⟩
+        intro t' ht' k ops
+        simp only [setThread, h3] at ht'
+        rcases mem_set_cases _ _ _ _ ht' with rfl | ⟨j, _, hj⟩
+        · exact h4 k ops
+        · exact hni t' (List.mem_iff_getElem?.mpr ⟨j, hj⟩) k ops
+      cases todo with
+      | nil =>
+        simp only [Option.some.injEq] at hs; subst hs
+        exact keep g _ honce hb rfl (by simp)
+      | cons op todo' =>
+        cases op with
+        | read k =>
+          simp only [Option.some.injEq] at hs; subst hs
+          exact keep g _ honce hb rfl (by simp)
+        | insert k v =>
+          simp only [Option.some.injEq] at hs; subst hs
+          refine keep { g with regs := (k, v) :: g.regs } _ honce (fun i hi4 => ?_) rfl (by simp)
+          simp only [lookup_cons]
+          by_cases e : k = i
+          · simp [e]
+          · simp only [e, if_false]; exact hb i hi4
+
+theorem inv_reachable (programs : List (List (List Op))) (g : G) (h : Reachable (init programs) g) : Inv g := by
+  induction h with
+  | refl => exact inv_init programs
+  | step _ hs ih => exact inv_step _ _ _ ih hs
+
+/-- **No thread ever observes a partially initialised table.** In every reachable state, for every
+number of threads, programs and schedule: a thread that is past `init()` (about to read or insert
+a registry entry) sees the once-cell `done`, and then every built-in is registered. -/
+theorem init_safe (programs : List (List (List Op))) (g : G) (h : Reachable (init programs) g)
+    (tid : Nat) (t : Thread) (todo : List Op) (ht : g.threads[tid]? = some t) (hpc : t.pc = .running todo) :
+    g.once = .done ∧ ∀ i, i < nStages → (lookup i g.regs).isSome = true := by
+  have hi := inv_reachable programs g h
+  have hm : t ∈ g.threads := List.mem_iff_getElem?.mpr ⟨tid, ht⟩
+  cases ho : g.once with
+  | uninit => have := (hi.uninit ho).2 t hm; rw [hpc] at this; cases this
+  | done => exact ⟨rfl, (hi.done ho).1⟩
+  | running o =>
+    obtain ⟨⟨t0, k0, ops0, hg0, hpc0, _⟩, hothers⟩ := hi.running o ho
+    by_cases e : tid = o
+    · subst e; rw [ht] at hg0; cases hg0; rw [hpc] at hpc0; cases hpc0
+    · have := hothers tid t ht e; rw [hpc] at this; cases this
+
+/-- While a thread is initialising, every other thread's first call is held at `init()`: it has
+made no registry access (`step` for it is not enabled). -/
+theorem others_blocked (g : G) (o tid : Nat) (t : Thread) (ho : g.once = .running o) (ht : g.threads[tid]? = some t)
+    (hpc : t.pc = .start) : step g tid = none := by
+  unfold step
+  simp only [ht, hpc]
+  cases t.calls with
+  | nil => rfl
+  | cons c r => simp [ho]
+
+/-- A registration made through the API happens after initialisation completed, so initialisation
+can never overwrite it: a user insert is only enabled in the `done` state, and from then on no
+built-in stage runs (`Inv.done`: nobody is initialising). The registered value is what the next
+read returns. -/
+theorem user_insert_after_builtins (programs : List (List (List Op))) (g g' : G) (h : Reachable (init programs) g)
+    (tid : Nat) (t : Thread) (k v : Nat) (todo : List Op)
+    (ht : g.threads[tid]? = some t) (hpc : t.pc = .running (.insert k v :: todo)) (hs : step g tid = some g') :
+    g.once = .done ∧ lookup k g'.regs = some v ∧ g'.once = .done := by
+  have h1 := (init_safe programs g h tid t _ ht hpc).1
+  unfold step at hs
+  simp only [ht, hpc, Option.some.injEq] at hs
+  subst hs
+  exact ⟨h1, by simp [setThread, lookup_cons], by simp [setThread, h1]⟩
+
+/-- Every read returns the latest preceding insert for its key in schedule order (reads and inserts
+are single atomic steps on one list; the most recent insert is found first). -/
+theorem read_latest (regs : List (Nat × Nat)) (k v : Nat) (later : List (Nat × Nat)) (h : ∀ e ∈ later, e.1 ≠ k) :
+    lookup k (later ++ (k, v) :: regs) = some v := by
+  induction later with
+  | nil => simp [lookup_cons]
+  | cons e l ih =>
+    obtain ⟨k', v'⟩ := e
+    have := h (k', v') (by simp)
+    simp only [List.cons_append, lookup_cons]
+    simp only at this
+    simp [this, ih (fun e he => h e (by simp [he]))]
+
+/-- **No deadlock**: in a reachable state, if some thread still has work, some thread is enabled.
+(The only blocking is at `init()` while another thread initialises, and that thread is enabled.) -/
+theorem progress (programs : List (List (List Op))) (g : G) (h : Reachable (init programs) g)
+    (tid : Nat) (t : Thread) (ht : g.threads[tid]? = some t) (hwork : t.done = false) :
+    ∃ j g', step g j = some g' := by
+  have hi := inv_reachable programs g h
+  cases hpc : t.pc with
+  | initializing k ops =>
+    refine ⟨tid, ?_⟩
+    unfold step; simp only [ht, hpc]
+    by_cases e : k + 1 = nStages <;> simp [e]
+  | running todo =>
+    refine ⟨tid, ?_⟩
+    unfold step; simp only [ht, hpc]
+    cases todo with
+    | nil => exact ⟨_, rfl⟩
+    | cons op r => cases op <;> exact ⟨_, rfl⟩
+  | start =>
+    have hcalls : t.calls ≠ [] := by
+      intro e; simp [Thread.done, hpc, e] at hwork
+    cases hc : t.calls with
+    | nil => exact absurd hc hcalls
+    | cons c rest =>
+      cases ho : g.once with
+      | uninit => exact ⟨tid, by unfold step; simp [ht, hpc, hc, ho]⟩
+      | done => exact ⟨tid, by unfold step; simp [ht, hpc, hc, ho]⟩
+      | running o =>
+        obtain ⟨⟨t0, k0, ops0, hg0, hpc0, _⟩, _⟩ := hi.running o ho
+        refine ⟨o, ?_⟩
+        unfold step; simp only [hg0, hpc0]
+        by_cases e : k0 + 1 = nStages <;> simp [e]
+
+/-! ## Registrations vs multi-read evaluations
+
+The full-strength statement — *every call's result equals its result in some sequential order of
+the calls* — quantifies over calls that read the registry several times (an evaluation looks a name
+up once per occurrence). It is **false** of the code and of the model; the witness is the schedule
+of the known finding. What holds is atomicity per registry operation (`read_latest`). -/
+
+/-- Thread 0: one evaluation reading key 7 twice. Thread 1: `register` key 7 := 2 (key 7 := 1 was
+registered before). -/
+def mrPrograms : List (List (List Op)) := [[[.insert 7 1], [.read 7, .read 7]], [[.insert 7 2]]]
+/-- The schedule: thread 0 initialises (1+4 steps), registers 7:=1 (2 steps), starts its evaluation and
+does the first read; thread 1 registers 7:=2; thread 0 does the second read. -/
+def mrSchedule : List Nat := [0, 0, 0, 0, 0, 0, 0, 0, 0, 1, 1, 0]
+
+/-- Results of a call sequence run alone on one thread (the sequential reference). -/
+def sequentialOuts (calls : List (List Op)) : List (Option Nat) :=
+  match (run (init [calls]) (List.replicate 64 0)).threads[0]? with
+  | some t => t.out
+  | none => []
+
+/-- In the interleaved run the evaluation of thread 0 read `[some 1, some 2]` for the same key. -/
+theorem multiread_witness :
+    ((run (init mrPrograms) mrSchedule).threads[0]?.map (·.out)) = some [some 2, some 1] := by decide
+
+/-- In every sequential order of the three calls the two reads of one evaluation agree. -/
+theorem multiread_sequential :
+    sequentialOuts [[.insert 7 1], [.insert 7 2], [.read 7, .read 7]] = [some 2, some 2] ∧
+    sequentialOuts [[.insert 7 1], [.read 7, .read 7], [.insert 7 2]] = [some 1, some 1] ∧
+    sequentialOuts [[.insert 7 2], [.insert 7 1], [.read 7, .read 7]] = [some 1, some 1] := by decide
+
+/-- **The full-strength atomicity statement is false** (known finding): the interleaved evaluation's
+reads differ from its reads in every sequential order of the same three calls. -/
+theorem violated_multiread :
+    ∀ order ∈ [[[Op.insert 7 1], [Op.insert 7 2], [Op.read 7, Op.read 7]],
+               [[Op.insert 7 1], [Op.read 7, Op.read 7], [Op.insert 7 2]],
+               [[Op.insert 7 2], [Op.insert 7 1], [Op.read 7, Op.read 7]]],
+      ((run (init mrPrograms) mrSchedule).threads[0]?.map (·.out)) ≠ some (sequentialOuts order) := by decide
+
+/-- Tie (regenerated facts): one lock per registry, never nested, nothing called under a guard;
+the global state is the five registries + once flag; every entry point initialises first. -/
+theorem tie_lock_sites : ∀ s ∈ EE.Gen.lockSites, s.otherCalls = [] ∧ s.nestedLocks = 0 := EE.Tie.no_call_under_lock
+theorem tie_entries : ∀ e ∈ EE.Gen.entryPoints, e.2.2 = true → e.2.1 = true := EE.Tie.entries_init_first
+
+/-! Non-vacuity: a reachable state in which two threads are past init and one is mid-evaluation. -/
+example : (run (init mrPrograms) mrSchedule).once = .done := by decide
+
 end EE.Props.C13
